@@ -341,7 +341,9 @@ class C16(Check):
         specs = [S.VALUE(K), S.VALUE(K + 1, horizon=4), S.VALUE_BATCH(K), S.MAINT(K), S.MAINT(K + 1, n=1),
                  S.VALUE_NEST(K), S.VALUE_NEG(K), S.VALUE_NEG(K + 1, horizon=4), S.VALUE0(K), S.VALUE0(K + 1, horizon=4),
                  S.VALUE_FRAC(K), S.VALUE_FRAC(K + 1, horizon=3), S.VALUE_HOLD(K + 1), S.VALUE_ALL(K)]
-        return _line_jobs(specs, ['value'], tier) + topo_jobs(['value'], tier)
+        # assets created while the line is running count towards the net value from then on
+        late = S.LATE(K, horizon=4, name='c16', ops=[['create', 5], ['create', 3, 4], ['wo', 'M1', 'x']])
+        return _line_jobs(specs, ['value'], tier) + _line_jobs([late], ['value', 'lifecycle'], tier) + topo_jobs(['value'], tier)
 
 
 @check
